@@ -795,7 +795,8 @@ func (c *ctx) lookups(cc *credentials.CCache) {
 
 // ---- client family --------------------------------------------------------------------
 
-var saneRealms = []string{"EXAMPLE.COM", "TEST.GOKRB5", "R", "SUB.EXAMPLE.COM", "lower.example"}
+// realms of the domain style and of the X.500 and "other" styles of RFC 4120 6.1 (a "/" inside a realm is part of the realm)
+var saneRealms = []string{"EXAMPLE.COM", "TEST.GOKRB5", "R", "SUB.EXAMPLE.COM", "lower.example", "C=US/O=OSF", "C=GB/O=EXAMPLE/OU=ENG", "NAMETYPE:rest/of.name=without-restrictions"}
 
 func clientCase(r *vh.Run, key string, i int) {
 	rnd := vh.NewRand("c15client", i)
